@@ -12,8 +12,8 @@ FUNCTIONS = [
     "batchie.cli.reveal_plate.main", "batchie.cli.extract_screen_metadata.main (argument parsers stubbed)",
 ]
 BOUNDS = {
-    "quick": "4 rows on 3 plates (two screens), every initial per-plate status, symbolic observation values, every history of 2 operations from {reveal(<=2 plate ids incl. repeated / already observed / unknown ids -1 and n_plates), mask, unmask, save+load, reveal via CLI}; construction: every per-row mask on 4 rows",
-    "thorough": "4 rows with histories of 3 operations, and 5 and 6 rows (4 plates) with histories of 2 operations",
+    "quick": "4 rows on 3 plates (two screens), every initial per-plate status, symbolic observation values, every history of 2 operations from {reveal(<=2 plate ids incl. repeated / already observed / unknown ids -1 and n_plates), mask, unmask, save+load, reveal via CLI}; construction: every per-row mask on 4 rows; one screen of 300 single-experiment plates with reveals of ids 255, 256, 299 (thorough: 0, 17 too)",
+    "thorough": "structure A: 4 rows with histories of 3 operations, 5 rows with 2; structure B: 4, 5 and 6 rows (4 plates) with histories of 2 operations; 300 plates with more reveal ids",
 }
 ASSUMPTIONS = [
     "names/doses are concrete (construction on arbitrary names is C01); observation values are symbolic reals (finite), with separate concrete zero / NaN cases",
@@ -37,14 +37,17 @@ def configs(tier, seed):
     q = tier == "quick"
     out = [dict(name="construct %s" % st, h="construct", st=st, R=4) for st in ("A", "B")]
     for st in ("A", "B"):
-        for R, L in (((4, 2),) if q else ((4, 3), (5, 2), (6, 2))):
+        for R, L in (((4, 2),) if q else ((4, 3), (5, 2)) if st == "A" else ((4, 2), (5, 2), (6, 2))):
             out.append(dict(name="history %s R=%d L=%d" % (st, R, L), h="history", st=st, R=R, L=L))
     out.append(dict(name="reveal-guards", h="guards", st="A", R=4))
     out.append(dict(name="set_observed", h="setobs", st="A", R=4))
+    out.append(dict(name="300 plates (ids past 255)", h="many", P=300, small=q))
     return out
 
 
 def fixtures(cfg):
+    if cfg["h"] == "many":
+        return [dict(ma=0, mb=1, cli=True)]
     v = {"ob%d" % i: 0.1 * (i + 1) for i in range(6)}
     v.update({"mk%d" % i: i % 2 == 0 for i in range(6)})
     v.update({"pm%d" % i: i == 1 for i in range(6)})
@@ -187,6 +190,43 @@ def h_history(ctx, cfg):
     return hist
 
 
+def h_many(ctx, cfg):
+    """plate ids beyond every narrow integer range: 300 plates of one experiment each, all unobserved; reveal a solver-chosen
+    pair among the ids 0, 17, 255, 256, 299 - directly and through the reveal_plate command - then reveal another one"""
+    np = ctx.np
+    retro = ctx.mod("batchie.retrospective")
+    data = ctx.mod("batchie.data")
+    P = cfg["P"]
+    rows = [("s%d" % (i % 3), "a", float(i + 1), "b", 1.0, "p%04d" % i) for i in range(P)]
+    vals = [0.25 + 0.001 * i for i in range(P)]
+    s = concrete_screen(ctx, rows, observations=vals, mask=[False] * P)
+    pid = [int(x) for x in s.plate_ids.tolist()]
+    first, second = ([256], [255, P - 1]) if cfg["small"] else ([255, 256, 17], [0, 255, 256, P - 1])
+    a = first[int(ctx.int("ma", 0, len(first) - 1))]
+    b = second[int(ctx.int("mb", 0, len(second) - 1))]
+    via_cli = ctx.is_true(ctx.bool("cli"))
+    if via_cli:
+        fin, fout = ctx.tmp("many_in.h5"), ctx.tmp("many_out.h5")
+        s.save_h5(fin)
+        cli_main(ctx, "batchie.cli.reveal_plate", screen=fin, output=fout, plate_id=[a])
+        s1 = data.Screen.load_h5(fout)
+    else:
+        s1 = retro.reveal_plates(s, [a])
+    s2 = retro.reveal_plates(s1, [b])
+    for label, scr, want_ids in (("first reveal", s1, {a}), ("second reveal", s2, {a, b})):
+        got = scr.observation_mask.tolist()
+        ctx.prove(got == [pid[i] in want_ids for i in range(P)], "revealing makes exactly the named plates (plus the already observed) observed (300 plates)",
+                  key="mask after reveal (ids past 255)")
+        ctx.prove([int(x) for x in scr.plate_ids.tolist()] == pid and scr.plate_names.tolist() == [r[5] for r in rows],
+                  "plate assignment unchanged (300 plates)", key="plate ids changed (ids past 255)")
+        ctx.prove(all_same(ctx, scr.observations.tolist(), vals), "stored observation values unchanged (300 plates)")
+        if label == "second reveal":
+            m = _meta(ctx, scr, "many")
+            ctx.prove(m["n_unobserved_plates"] == P - len(want_ids) and m["n_plates"] == P, "number of unobserved plates drops by exactly the newly revealed plates")
+    ctx.prove(not any(s.observation_mask.tolist()), "the screen revealed from is left as it was")
+    return [a, b]
+
+
 def h_guards(ctx, cfg):
     retro = ctx.mod("batchie.retrospective")
     rows = ROWS[cfg["st"]][:cfg["R"]]
@@ -241,4 +281,4 @@ def h_setobs(ctx, cfg):
 
 
 def run(ctx, cfg):
-    return {"construct": h_construct, "history": h_history, "guards": h_guards, "setobs": h_setobs}[cfg["h"]](ctx, cfg)
+    return {"construct": h_construct, "history": h_history, "guards": h_guards, "setobs": h_setobs, "many": h_many}[cfg["h"]](ctx, cfg)
